@@ -136,6 +136,25 @@ func (DidOracle) State(w *world.World, ctx sdk.Context, st *engine.State) []engi
 			seenAcc[acc] = d
 		}
 	}
+	// the same account under two spellings (bech32 and hex addresses are case-insensitive) is still one account
+	canonAcc := map[string][]string{}
+	for _, acc := range sortedKeys(s.Dids) {
+		canonAcc[strings.ToLower(acc)] = append(canonAcc[strings.ToLower(acc)], acc)
+	}
+	for _, c := range sortedKeys(canonAcc) {
+		if len(canonAcc[c]) > 1 {
+			out = append(out, fd("C17", "account-bound-under-two-spellings", "", fmt.Sprintf("account %s is bound %d times: %v", short1(c), len(canonAcc[c]), canonAcc[c])))
+		}
+	}
+	canonKid := map[string][]string{}
+	for _, addr := range sortedKeys(s.Kids) {
+		canonKid[strings.ToLower(addr)] = append(canonKid[strings.ToLower(addr)], addr)
+	}
+	for _, c := range sortedKeys(canonKid) {
+		if l := canonKid[c]; len(l) > 1 && s.Kids[l[0]] != s.Kids[l[1]] {
+			out = append(out, fd("C17", "address-linked-to-two-key-dids", "spelling", fmt.Sprintf("address %s is linked to key DIDs %s and %s under two spellings of the same address", w.NameOf(c), short1(s.Kids[l[0]]), short1(s.Kids[l[1]]))))
+		}
+	}
 	byAddr := map[string]string{}
 	for _, d := range sortedKeys(s.PayAddr) {
 		addr := s.PayAddr[d]
@@ -228,7 +247,7 @@ func (DidOracle) Step(si *engine.StepInfo) []engine.Finding {
 			continue
 		}
 		if _, had := pre.PayAddr[d]; !had && si.Op.Msg != nil {
-			if creator := si.Op.Msg.GetSigners()[0].String(); creator != post.PayAddr[d] {
+			if creator := si.Op.Msg.GetSigners()[0].String(); !strings.EqualFold(creator, post.PayAddr[d]) {
 				out = append(out, fd("C17", "key-did-address-set-by-other", "", fmt.Sprintf("%s: %s set %s as payment address of %s", si.Op.Label, w.NameOf(creator), w.NameOf(post.PayAddr[d]), short1(d))))
 			}
 		}
@@ -397,6 +416,12 @@ func didOps(w *world.World, ctx sdk.Context, tier string) []engine.Op {
 				}
 				m := &didtypes.MsgUpdatePaymentAddress{Creator: w.A(ci).S(), AccountId: w.A(ai).AccountId(), Did: dids[dn]}
 				out = append(out, Tx("payaddr", fmt.Sprintf("payaddr(%s,acct=%s,by=%s)", dn, didNames[ai], didNames[ci]), m))
+				if ci == ai {
+					// the same account, spelled in upper case (valid bech32; the signer is the same account)
+					up := strings.ToUpper(w.A(ci).S())
+					mu := &didtypes.MsgUpdatePaymentAddress{Creator: up, AccountId: "cosmos:" + world.ChainID + ":" + up, Did: dids[dn]}
+					out = append(out, Tx("payaddr-bad-spelling", fmt.Sprintf("payaddr-bad-spelling(%s,acct=%s,by=%s)", dn, didNames[ai], didNames[ci]), mu))
+				}
 			}
 		}
 	}
